@@ -10,7 +10,7 @@ from vlib.kernel import KernelBuild, located_rules
 from . import _common
 
 ID = "K04"
-SERVES = ["C01", "C03", "C10", "C13"]
+SERVES = ["C01", "C03", "C04", "C10", "C13"]
 TITLE = "getMinMaxValues == range of the integer type; castValue == C conversion"
 
 BITOF = "(vt->type == VType_BOOL ? 1 : vt->type == VType_CHAR ? platform_p->char_bit : vt->type == VType_SHORT ? platform_p->short_bit : " \
@@ -87,6 +87,22 @@ void h_cast(void) {
     g_in_intvalue = v; g_in_sign = (int)s; g_in_bit = bit;
     castValue_int(&v, s, bit);
 }
+/* (T)f for a floating point value f and an integer type T of `bit` bits: C11 6.3.1.4 - f is truncated toward zero; the
+   behaviour is defined when the truncated value can be represented in T */
+double g_in_float;
+double nondet_double(void);
+void h_cast_float(void) {
+    double f = nondet_double(); enum Sign s = (enum Sign)nondet_int(); int bit = nondet_int();
+    __CPROVER_assume(f == f && (s == Sign_SIGNED || s == Sign_UNSIGNED) && (bit == 8 || bit == 16 || bit == 32 || bit == 64));
+    double two_bm1 = bit == 8 ? 128.0 : bit == 16 ? 32768.0 : bit == 32 ? 2147483648.0 : 9223372036854775808.0;
+    if (s == Sign_SIGNED) __CPROVER_assume(f < two_bm1 && (bit == 64 ? f >= -two_bm1 : f > -two_bm1 - 1.0));
+    else __CPROVER_assume(f > -1.0 && (bit == 64 ? f < two_bm1 : f < 2.0 * two_bm1));      /* unsigned 64 bits: only below 2^63 (a bigint cannot hold more) */
+    g_in_float = f; g_in_sign = (int)s; g_in_bit = bit;
+    bigint v = 12345;
+    castValue_float(f, &v);
+    castValue_int(&v, s, bit);
+    __CPROVER_assert(v == (bigint)f, "a floating point value whose truncation fits the target type is converted to that truncation");
+}
 '''
 
 REPLAY_MM = r'''
@@ -109,6 +125,24 @@ int main(int argc, char **argv) {
       else if (vt.sign == ValueType::UNSIGNED) { wmn = 0; wmx = (long long)(ULLONG_MAX >> (64 - bits)); } else { wmn = -(long long)(1ULL << (bits-1)); wmx = (long long)((1ULL << (bits-1)) - 1); } }
     printf("getMinMaxValues(type=%d sign=%d ptr=%d bits=%d) = %d [%lld,%lld]; type range: %d [%lld,%lld]\n", (int)vt.type, (int)vt.sign, (int)vt.pointer, bits, (int)r, mn, mx, (int)wr, wmn, wmx);
     return (r == wr && mn == wmn && mx == wmx) ? 0 : 1;
+}
+'''
+
+REPLAY_FLOAT = r'''
+#include "vf_common.h"
+#include "vfvalue.h"
+#include "symboldatabase.h"
+#include <cstdio>
+int main() {
+    int bad = 0;
+    const double fs[] = { 1e10, 3e9, -5e9, 1e18, 4294967296.5 };
+    for (double f : fs) {
+        ValueFlow::Value val; val.valueType = ValueFlow::Value::ValueType::FLOAT; val.floatValue = f;
+        const ValueFlow::Value r = ValueFlow::castValue(val, ValueType::SIGNED, 64);
+        printf("castValue(%.1f, signed, 64 bits) = %lld, (long long)f = %lld\n", f, (long long)r.intvalue, (long long)f);
+        if (r.intvalue != (long long)f) bad = 1;
+    }
+    return bad;
 }
 '''
 
@@ -164,6 +198,24 @@ def build(ctx):
     ], ID + ".castValue")
     n += k
     out.append("#define BIGINT_BITS %s\nvoid castValue_int(bigint *intvalue_p, const enum Sign sign, int bit)\n%s{\n%s\n}\n" % (mb.group(1), CAST_CONTRACT, text))
+    # castValue: conversion of a floating point value (the prefix of the function)
+    mcs = extract.mask(csig.text)
+    hf = list(re.finditer(r'if \(value\.isFloatValue\(\)\)\s*\{', mcs))
+    if len(hf) != 1:
+        raise extract.ExtractError("castValue: `if (value.isFloatValue()) {` found %d times" % len(hf))
+    obf = hf[0].end() - 1
+    cbf = extract.match_brace(csig.text, obf, mcs)
+    regf = extract.Located("lib/vf_common.cpp", csig.text[obf + 1:cbf], csig.start + obf + 1, csig.start + cbf, extract.read("lib/vf_common.cpp"))
+    kb.add_located("ValueFlow::castValue [floating point value]", regf, "region")
+    tf, k = located_rules(regf, _common.VT_RULES + [
+        (r'\bvalue\.valueType = Value::ValueType::INT\s*;', ';', 1, 1),
+        (r'\bvalue\.floatValue\b', 'floatValue', 2),
+        (r'\bvalue\.intvalue\b', '(*intvalue_p)', 2, 2),
+        (r'std::numeric_limits<int>::min\(\)', 'INT_MIN', 0, 1),
+        (r'std::numeric_limits<int>::max\(\)', 'INT_MAX', 0, 1),
+    ], ID + ".castValue.float")
+    n += k
+    out.append("void castValue_float(double floatValue, bigint *intvalue_p)\n{\n%s\n}\n" % extract.strip_comments(tf))
     kb.rules_fired = n
     text = "".join(out)
     extract.residue_scan(text, ID)
@@ -174,7 +226,8 @@ def build(ctx):
     kb.job("getMinMaxValues.twin", "h_minmax", kind="twin", enforce="getMinMaxValues", defines=["TWIN"])
     kb.job("castValue", "h_cast", enforce="castValue_int", replay="cast")
     kb.job("castValue.twin", "h_cast", kind="twin", enforce="castValue_int", defines=["TWIN"])
-    kb.assumptions += ["castValue: region = the integer truncation block; interface (value.intvalue by pointer, sign, bit) chosen by the spec; the float->int prefix is not verified",
+    kb.job("castValue.float", "h_cast_float", replay="float", timeout=600, note="loop-free regions (float prefix + integer block): every double whose truncation fits the target type, 8/16/32/64 bits, signed and unsigned (unsigned 64 bits below 2^63)")
+    kb.assumptions += ["castValue: region = the integer truncation block; interface (value.intvalue by pointer, sign, bit) chosen by the spec; the float->int prefix is a second region (job castValue.float)",
                        "castValue requires bit >= 1 (call sites pass platform *_bit or max(n1,n2)*8; the latter is checked at the call site only by reading)",
                        "getMinMaxValues: unsigned 64-bit maximum is clamped to LLONG_MAX by design of bigint"]
 
@@ -188,4 +241,9 @@ def build(ctx):
         rc, o, cmd = native.compile_run("replay_K04_cast", REPLAY_CAST, [inputs.get("g_in_intvalue", 0), inputs.get("g_in_sign", 0), inputs.get("g_in_bit", 8)])
         return native.verdict_from_rc(rc, o), o, cmd
     kb.replayers["cast"] = rcast
+
+    def rfloat(inputs, ctx):
+        rc, o, cmd = native.compile_run("replay_K04_float", REPLAY_FLOAT, [])
+        return native.verdict_from_rc(rc, o), o, cmd
+    kb.replayers["float"] = rfloat
     return kb
